@@ -6,7 +6,7 @@ package actionlint
 //
 // Space (finite, enumerated completely): every non-exempt scalar value position of the maximal
 // seeds (each governed by one key of the availability table, or by none) x 12 contexts + 5 special
-// functions x 4 embeddings. Oracle: vAvailability (appendix E, transcribed from GitHub's table).
+// functions x 8 embeddings (one of them inside the arguments of hashFiles). Oracle: vAvailability (appendix E, transcribed from GitHub's table).
 
 import (
 	"fmt"
@@ -29,10 +29,13 @@ func c12Embeddings(name string, isFunc bool) []string {
 		}
 		return []string{"${{ " + call + " }}", "${{ " + up + " }}", "${{ true && " + call + " }}", "${{ toJSON(" + call + ") }}",
 			// after another placeholder / another operand that is fine everywhere
-			"${{ 1 }} x ${{ " + call + " }}", "${{ 'a' == 'b' || " + call + " }}", "${{ " + call + " && 'a' || 'b' }}"}
+			"${{ 1 }} x ${{ " + call + " }}", "${{ 'a' == 'b' || " + call + " }}", "${{ " + call + " && 'a' || 'b' }}",
+			// inside the arguments of a special function (which is itself unavailable at most keys)
+			"${{ hashFiles(format('{0}', " + call + ")) }}"}
 	}
 	return []string{"${{ " + name + " }}", "${{ " + strings.ToUpper(name) + ".zz }}", "${{ 'a' && " + name + ".yy }}", "${{ toJSON(" + name + ") }}",
-		"${{ 1 }} x ${{ " + name + ".q }}", "${{ format('{0}{1}', 1, " + name + ") }}", "${{ " + name + ".c && 'a' || 'b' }}"}
+		"${{ 1 }} x ${{ " + name + ".q }}", "${{ format('{0}{1}', 1, " + name + ") }}", "${{ " + name + ".c && 'a' || 'b' }}",
+		"${{ hashFiles('a', " + name + ".h) }}"}
 }
 
 func c12Allowed(avail, name string, isFunc bool) bool {
@@ -52,14 +55,23 @@ func c12Allowed(avail, name string, isFunc bool) bool {
 	return false
 }
 
+// c12ProjectLint: catalogues (by seed name) whose source is linted as a file of a repository with a
+// local action and a local reusable workflow (the project seed of C03).
+var c12ProjectLint = map[string]func(string) vLintResult{}
+
 func c12Judge(r *vReport, c *vCatalogue, p *vPos, sch vScalarSchema, name string, isFunc bool, emb int, text string) {
 	quoted := "'" + strings.ReplaceAll(text, "'", "''") + "'"
 	src := c.Replace(p, quoted)
-	res := vLint(src, nil)
+	res := vLintResult{}
+	if pl := c12ProjectLint[c.Seed]; pl != nil {
+		res = pl(src)
+	} else {
+		res = vLint(src, nil)
+	}
 	r.Evaluations++
 	r.Transitions++
 	r.Validated++
-	replay := map[string]any{"seed": c.Seed, "path": p.Path, "schema_path": p.NPath, "avail_key": sch.Avail, "name": name, "func": isFunc, "embedding": emb, "src": src, "line": p.Line, "lo": p.Col, "hi": p.Col + len(quoted) - 1}
+	replay := map[string]any{"project": c12ProjectLint[c.Seed] != nil, "seed": c.Seed, "path": p.Path, "schema_path": p.NPath, "avail_key": sch.Avail, "name": name, "func": isFunc, "embedding": emb, "src": src, "line": p.Line, "lo": p.Col, "hi": p.Col + len(quoted) - 1}
 	if res.Panic != "" || res.Err != nil {
 		r.Violation("failure", fmt.Sprintf("%s %s: panic=%q err=%v", c.Seed, p.Path, vTrunc(res.Panic, 300), res.Err), replay)
 		return
@@ -125,6 +137,9 @@ func TestVerifC12(t *testing.T) {
 		}
 		for k := 0; k < 2; k++ {
 			res := vLint(rp["src"].(string), nil)
+			if b, _ := rp["project"].(bool); b {
+				res = vProjectLint(t)(rp["src"].(string))
+			}
 			fmt.Printf("replay %d: diagnostics: %v\n", k, vDiagStrings(res.Errs))
 			c12Verdict(r, res.Errs, rp)
 		}
@@ -135,6 +150,13 @@ func TestVerifC12(t *testing.T) {
 	if err != nil {
 		r.HarnessError("%v", err)
 		return
+	}
+	// the caller of a local action and a local reusable workflow, linted inside their repository
+	if pc, err := vBuildCatalogue("project-caller", vProjectCaller); err != nil {
+		r.HarnessError("%v", err)
+	} else {
+		c12ProjectLint[pc.Seed] = vProjectLint(t)
+		cats = append(cats, pc)
 	}
 	var idx int64
 	keysCovered := map[string]bool{}
